@@ -98,6 +98,12 @@ pub enum Call {
     /// held by the anchor table of a failing (`ok: false`) or succeeding (`ok: true`, last-wins duplicate key)
     /// document, so the inner call runs while that table is being torn down
     DropReenters { ok: bool, arc: bool },
+    /// ten anchored user values whose last references are held by the anchor table of a failing document:
+    /// the result is the order in which their `Drop` impls run
+    DropOrder { arc: bool },
+    /// the `Debug` form of the error of a validating entry point (the only structural view of an `Error`
+    /// there is: it has no `PartialEq`) for a document with eight recorded paths
+    ValidDebug { validator: bool },
     /// outer document with three nest points; the inner call runs at nest point k (3 = never)
     NestRc { k: u8, inner: Box<Call> },
     /// the nest point sits inside an anchored node deserialized into an RcAnchor (anchor context stack not empty)
@@ -108,7 +114,11 @@ pub enum Call {
 /// marker with which a call reports that its result with a nested call differs from the flat equivalent
 const NESTED_MISMATCH: &str = "NESTED-VS-FLAT-MISMATCH";
 
-pub const BASIC: [Call; 60] = [
+pub const BASIC: [Call; 64] = [
+    Call::DropOrder { arc: false },
+    Call::DropOrder { arc: true },
+    Call::ValidDebug { validator: false },
+    Call::ValidDebug { validator: true },
     Call::DropReenters { ok: false, arc: false },
     Call::DropReenters { ok: true, arc: false },
     Call::DropReenters { ok: false, arc: true },
@@ -221,6 +231,24 @@ impl Drop for DropCalls {
         let inner = Call::OkJsonAnchors;
         let r = run_call(&inner);
         let _ = NEST_LOG.try_with(|l| l.borrow_mut().push((inner, r)));
+    }
+}
+
+thread_local! {
+    static DROP_ORDER: RefCell<Vec<String>> = const { RefCell::new(Vec::new()) };
+}
+
+/// A value that records when it is dropped.
+#[derive(Debug)]
+struct Noted(String);
+impl<'de> Deserialize<'de> for Noted {
+    fn deserialize<D: serde::Deserializer<'de>>(d: D) -> Result<Self, D::Error> {
+        Ok(Noted(String::deserialize(d)?))
+    }
+}
+impl Drop for Noted {
+    fn drop(&mut self) {
+        let _ = DROP_ORDER.try_with(|l| l.borrow_mut().push(self.0.clone()));
     }
 }
 
@@ -534,6 +562,35 @@ pub fn run_call(c: &Call) -> String {
                     }),
                     |v| format!("{:?}", v.keys().collect::<Vec<_>>()),
                 ),
+            }
+        }
+        Call::DropOrder { arc } => {
+            let doc: String = (1..=10).map(|i| format!("- &a{i} r{i:02}\n")).collect::<String>() + "- [bad]\n";
+            DROP_ORDER.with(|l| l.borrow_mut().clear());
+            let r = if *arc {
+                res(guard(|| serde_saphyr::from_str::<Vec<serde_saphyr::ArcAnchor<Noted>>>(&doc)), |v| format!("{}", v.len()))
+            } else {
+                res(guard(|| serde_saphyr::from_str::<Vec<serde_saphyr::RcAnchor<Noted>>>(&doc)), |v| format!("{}", v.len()))
+            };
+            let order = DROP_ORDER.with(|l| l.borrow_mut().drain(..).collect::<Vec<_>>());
+            format!("{r} dropped in the order {}", order.join(","))
+        }
+        Call::ValidDebug { validator } => {
+            let doc = "name: ''\nn: 5000\nlist: [1, 2, 3, 4]\nzzz: toolong\n";
+            let r = if *validator {
+                guard(|| serde_saphyr::from_str_validate::<VCfg>(doc))
+            } else {
+                guard(|| serde_saphyr::from_str_valid::<VCfg>(doc))
+            };
+            match r {
+                Ok(Ok(v)) => format!("{v:?}"),
+                Ok(Err(e)) => match e.without_snippet() {
+                    // (the validator crate's own error type prints its hash maps in their order: only the
+                    // part that is this crate's is looked at)
+                    serde_saphyr::Error::ValidatorError { locations, .. } => format!("{} | {:?}", err_str(&e), locations),
+                    other => format!("{} | {:?}", err_str(&e), other),
+                },
+                Err(a) => format!("{a:?}"),
             }
         }
         Call::ReaderArc { second } => {
